@@ -406,10 +406,32 @@ func ruleLX1(c *Ctx) *rule {
 			}
 		}
 		fi := c.info(runM)
+		closedByCaller := false
+		if closeCall == nil {
+			// the goroutine that calls run closes the channel when run returns: go func() { l.run(start); close(ch) }()
+			callers := c.callersOf(runM)
+			n := 0
+			for _, site := range callers {
+				host := site.Parent()
+				for _, cs := range callSites(host) {
+					if b, ok := cs.Common().Value.(*ssa.Builtin); ok && b.Name() == "close" && before(site, cs) && c.info(host).innermostLoop(cs.Block()) == nil {
+						if _, isDefer := cs.(*ssa.Defer); !isDefer {
+							closeCall = cs
+							n++
+						}
+					}
+				}
+			}
+			if len(callers) == 0 || n != len(callers) {
+				closeCall = nil
+			} else {
+				closedByCaller = true
+			}
+		}
 		switch {
 		case closeCall == nil:
 			r.bad(key, c.pos(runM.Pos()), "the token channel is never closed: the parser blocks forever after the last token")
-		case fi.innermostLoop(closeCall.Block()) != nil:
+		case !closedByCaller && fi.innermostLoop(closeCall.Block()) != nil:
 			r.bad(key, c.ipos(closeCall), "the token channel is closed inside the state loop")
 		case len(fi.loops) != 1:
 			r.undecided(key, c.pos(runM.Pos()), "the run function is not a single state loop")
